@@ -8,7 +8,7 @@ static const Info I = {
     "[ptr,ptr+size) of each frame. Oracle: ranges of simultaneously live frames are disjoint, canary locals intact at completion, every frame released exactly once with its size, allocation balance 0; reusing policies: zero global allocations for a "
     "frame size already served (exactly 1 for the thread-safe variant's fallback while its block is held by a live frame); extra object constructed once, usable immediately, destroyed with its frame. Domain: single-use policies host one live frame at a time (documented). "
     "Threads: 1..3 coroutines per thread with generated schedules - disjoint ranges + canaries. Non-trivial = >=2 frames created (history) / >=1 context switch (threads); distinct = hash(decoded program, executed switch trace).",
-    scen_storage::class_names, 8, scen_storage::counter_names, 3};
+    scen_storage::class_names, 8, scen_storage::counter_names, 4};
 const Info &info() { return I; }
 void run_case(Reader &r) { scen_storage::run(r); }
 std::string describe(Reader &r) { return scen_storage::describe(r); }
